@@ -127,6 +127,20 @@ theorem stepOk_writers (names : List Bytes) (pre post : Store) (op : Op) (n : By
     | (subst hn; simp only [stepOk, Op.name, Bool.and_eq_true] at h; exact h.2)
     | exact absurd rfl hr
 
+/-- **A rejected metadata write changes nothing.** `write_metadata` with a value TOML cannot encode returns an error in
+every state, and the whole store — in particular the file declaring the requested flags and the metadata the layer
+holds — is exactly as before (the code serialises before it opens the file). -/
+theorem rejected_metadata_write_changes_nothing (s : St) (n : Bytes) :
+    (step s (.wmetaBad n)).2.1 ≠ .ok ∧ ((step s (.wmetaBad n)).1.store.get n) = s.store.get n ∧
+      ∀ k, k ≠ n → (step s (.wmetaBad n)).1.store.get k = s.store.get k := by
+  simp only [step, Op.name, isWrite, Bool.true_and]
+  split
+  · exact ⟨by simp, rfl, fun _ _ => rfl⟩
+  · refine ⟨by simp [stepLayer], ?_, ?_⟩
+    · simp [stepLayer, Store.get_set_eq]
+    · intro k hk
+      simp [stepLayer, Store.get_set_ne _ _ _ _ hk]
+
 /-- The history the existing examples miss (D1): cached request, write an SBOM, uncached request. In the model of the
 repaired code the layer reported as empty carries no SBOM. -/
 example :
@@ -138,10 +152,10 @@ example :
 (invalid `versioned` metadata replaced, then kept). -/
 example :
     let ops : List Op := [.cached [97] true true .generic (.delete 1) (.keep 2), .wmeta [97] ⟨none, some 7⟩,
-      .wsbom [97] [(0, [99])], .wenv [97] [⟨.build, .prepend, [80], [47]⟩], .restore,
+      .wsbom [97] [(0, [99])], .wenv [97] [⟨.build, .prepend, [80], [47]⟩], .wmetaBad [97], .restore,
       .cached [97] false true .versioned (.replace ⟨some 5, none⟩ 6) (.keep 4), .restore,
       .cached [97] true false .versioned (.delete 8) (.delete 9)]
     ((trace {} ops).map (fun e => e.out)) =
-      [.emptyNew, .ok, .ok, .ok, .ok, .restored 4, .ok, .emptyRes 9] := by decide
+      [.emptyNew, .ok, .ok, .ok, .err .metaFile, .ok, .restored 4, .ok, .emptyRes 9] := by decide
 
 end CnbVerif.C01
